@@ -1,7 +1,10 @@
 // Replay tool: runs witnesses against the REAL rbpf crate at /repo.
 //   replay finding <id>      -> prints REPRODUCED / NOT-REPRODUCED <what>
+mod arith { include!("../../spec/arith_real.rs"); }
+mod spec { include!("../../spec/ebpf_sem.rs"); }
 mod asmtable;
 mod findings;
+mod step;
 
 fn main() {
     let args: Vec<String> = std::env::args().collect();
@@ -20,6 +23,14 @@ fn main() {
         let ok = asmtable::run();
         std::process::exit(if ok { 0 } else { 1 });
     }
-    eprintln!("usage: replay finding <id> | asm-table");
+    if args.len() >= 3 && args[1] == "step" {
+        let txt = std::fs::read_to_string(&args[2]).expect("witness file");
+        match step::from_json(&txt) {
+            Ok(w) => println!("{}", step::replay(&w)),
+            Err(e) => { println!("NOT-REPLAYABLE bad witness file: {}", e); std::process::exit(2); }
+        }
+        return;
+    }
+    eprintln!("usage: replay finding <id> | asm-table | step <witness.json>");
     std::process::exit(2);
 }
